@@ -99,8 +99,14 @@ def _replace_with_quantised(
     if node.target in (F.linear, U.linear):
         if len(args) == 2:  # bias omitted, or given by keyword
             args.append(kwargs.pop("bias", None))
-    elif len(args) > 3:  # attention: positional attn_mask, dropout_p, is_causal
-        kwargs.update(zip(("attn_mask", "dropout_p", "is_causal"), args[3:]))
+    elif len(args) > 3:  # attention: optional arguments given positionally
+        names = ["attn_mask", "dropout_p", "is_causal"]
+        if node.target is U.scaled_dot_product_attention:
+            names += ["mult"]
+        else:
+            names += ["scale", "enable_gqa"]
+        assert len(args) - 3 <= len(names), f"unexpected positional args: {node}"
+        kwargs.update(zip(names, args[3:]))
         args = args[:3]
     # Breaks when I pass in FPFormat objects, so convert to tuple and back
     args = (
